@@ -56,6 +56,9 @@ func (d *Delete) Unmarshal(b []byte) error {
 		d.NumberOfSPI = numberOfSPI
 
 		b = b[4:]
+		if len(b)%4 != 0 {
+			return errors.Errorf("Delete: SPI data length %d is not a multiple of 4 bytes", len(b))
+		}
 		var spi uint32
 		for i := 0; i < len(b); i += 4 {
 			spi = binary.BigEndian.Uint32(b[i : i+4])
